@@ -265,3 +265,8 @@ def build_ah(config="o1", labels=None):
             continue
         units.append((os.path.join(HARNESS, "algo_inst.cpp"), ["-DVLABEL=%s" % lab], "lab%d" % k))
     return build_program("ah", config, units)
+
+
+def build_ioh(config="o1"):
+    """The file-codec harness (harness/io_main.cpp)."""
+    return build_program("ioh", config, [(os.path.join(HARNESS, "io_main.cpp"), [], "main")])
